@@ -402,4 +402,4 @@ func TestVerifReplay(t *testing.T) {
 
 
 if __name__ == '__main__':
-    main()
+    guarded_main('C20', main)
